@@ -168,7 +168,7 @@ pub(crate) fn read_tags_array(
     // Case where we have no tags
     if num_tags == 0 {
         put(output, 0, 4_u16.to_ne_bytes().as_slice())?;
-        burn_array(input, inposp)?;
+        burn_array(input, inposp, 1)?;
         return Ok(4);
     }
 
@@ -401,23 +401,31 @@ pub(crate) fn burn_tag(input: &[u8], inposp: &mut usize) -> Result<(), Error> {
     Ok(())
 }
 
-pub(crate) fn burn_key_and_value(input: &[u8], inposp: &mut usize) -> Result<(), Error> {
+pub(crate) fn burn_key_and_value(
+    input: &[u8],
+    inposp: &mut usize,
+    depth: usize,
+) -> Result<(), Error> {
     verify_char(input, b'"', inposp)?;
-    burn_rest_of_key_and_value(input, inposp)
+    burn_rest_of_key_and_value(input, inposp, depth)
 }
 
 // from the character after the key's opening quote
 // ending on the character following the value
-pub(crate) fn burn_rest_of_key_and_value(input: &[u8], inposp: &mut usize) -> Result<(), Error> {
+pub(crate) fn burn_rest_of_key_and_value(
+    input: &[u8],
+    inposp: &mut usize,
+    depth: usize,
+) -> Result<(), Error> {
     burn_string(input, inposp)?;
     eat_colon_with_whitespace(input, inposp)?;
-    burn_value(input, inposp)?;
+    burn_value(input, inposp, depth)?;
     Ok(())
 }
 
 // from the character after the open brace
 // ending on the character following the close brace
-pub(crate) fn burn_object(input: &[u8], inposp: &mut usize) -> Result<(), Error> {
+pub(crate) fn burn_object(input: &[u8], inposp: &mut usize, depth: usize) -> Result<(), Error> {
     loop {
         eat_whitespace_and_commas(input, inposp);
 
@@ -427,13 +435,13 @@ pub(crate) fn burn_object(input: &[u8], inposp: &mut usize) -> Result<(), Error>
             return Ok(());
         }
 
-        burn_key_and_value(input, inposp)?;
+        burn_key_and_value(input, inposp, depth)?;
     }
 }
 
 // from the character after the open bracket
 // ending on the character following the close bracket
-pub(crate) fn burn_array(input: &[u8], inposp: &mut usize) -> Result<(), Error> {
+pub(crate) fn burn_array(input: &[u8], inposp: &mut usize, depth: usize) -> Result<(), Error> {
     loop {
         eat_whitespace_and_commas(input, inposp);
 
@@ -443,11 +451,18 @@ pub(crate) fn burn_array(input: &[u8], inposp: &mut usize) -> Result<(), Error> 
             return Ok(());
         }
 
-        burn_value(input, inposp)?;
+        burn_value(input, inposp, depth)?;
     }
 }
 
-pub(crate) fn burn_value(input: &[u8], inposp: &mut usize) -> Result<(), Error> {
+/// How deeply arrays and objects may nest inside a value we skip over
+pub(crate) const MAX_BURN_DEPTH: usize = 128;
+
+// `depth` is the number of arrays and objects we are already inside of
+pub(crate) fn burn_value(input: &[u8], inposp: &mut usize, depth: usize) -> Result<(), Error> {
+    if depth > MAX_BURN_DEPTH {
+        return Err(InnerError::JsonBad("Nested too deeply", *inposp).into());
+    }
     if *inposp >= input.len() {
         return Err(InnerError::JsonBad("Too short burning an unused JSON value", *inposp).into());
     }
@@ -458,11 +473,11 @@ pub(crate) fn burn_value(input: &[u8], inposp: &mut usize) -> Result<(), Error> 
         }
         b'[' => {
             *inposp += 1;
-            burn_array(input, inposp)?
+            burn_array(input, inposp, depth + 1)?
         }
         b'{' => {
             *inposp += 1;
-            burn_object(input, inposp)?
+            burn_object(input, inposp, depth + 1)?
         }
         b't' => burn_true(input, inposp)?,
         b'f' => burn_false(input, inposp)?,
